@@ -34,7 +34,7 @@ func c18Gen(tp *Tape, env *Env, maxRunners int) (*c18Plan, []*Program) {
 			MaxNodes: 3, MaxStmts: 4, MaxDepth: 2, MaxTotal: 20,
 			WLine: 9, WOptions: 4, WIf: 3, WSet: 4, WJump: 3, WJumpE: 1, WStop: 1, WCall: 2, WCommand: 2,
 			NVars: [3]int{2, 1, 1}, NJVars: 1, Probes: true, Visited: true, Random: tp.Bool("random"), ExprDepth: 2,
-			InlinePct: 35, CondPct: 30, VarLines: true, CountLines: tp.Chance(30, "countlines"), MarkupLines: true,
+			InlinePct: 35, CondPct: 30, VarLines: true, Builtins: true, CountLines: tp.Chance(30, "countlines"), MarkupLines: true,
 		}
 		if tp.Bool("cmds") {
 			cfg.Handlers = drawHandlers(tp, 2)
@@ -80,6 +80,7 @@ func c18World(tp *Tape, env *Env) (*Plan, *Violation) {
 	cp, progs := c18Gen(tp, env, 4)
 	plan := &Plan{Harness: 1, Property: "C18", Program: progs[0], Extra: map[string]any{"c18": cp}}
 	env.St.sample(map[string]any{"runners": len(cp.Runners), "order": cp.Order, "burst_every": cp.BurstEvery, "first_script": readerTexts(&cp.Runners[0].World)})
+	journal(plan)
 	return plan, c18Exec(plan, env.St)
 }
 
